@@ -102,7 +102,7 @@ def gen_case(rng, max_o, max_s, max_f, single=False):
 def batches(ctx):
     rng = ctx.rng
     quick = ctx.quick()
-    cases = [gen_case(rng, 5, 3, 3, single=(i % 5 == 0)) for i in range(320 if quick else 3000)]
+    cases = [gen_case(rng, 5, 4 if i % 2 else 3, 3, single=(i % 5 == 0)) for i in range(1600 if quick else 12000)]
     ctx.dist["seven"] = {"cases": len(cases), "single_family": sum(1 for i in range(len(cases)) if i % 5 == 0),
                          "infinite_hgt": sum(1 for c in cases if c["costs"]["hgt"] == R.INF)}
     yield Batch(
@@ -116,13 +116,25 @@ def batches(ctx):
         describe="minimum costs of lca, thl, base/ext spfs, base/ext uspfs: models vs implementation on inputs up to 5 object leaves, 3 species leaves, 3 families (every fifth input single-family)")
 
 
+def _seven_big(case):
+    v = seven(case, with_exh=len(R.otree_leaves(case["O"])) <= 5)
+    return v
+
+
 def extra(ctx):
+    """the relations of the property on larger inputs (implementation only), in parallel workers"""
+    from ..core import run_impl
     rng = ctx.rng
-    n = 40 if ctx.quick() else 500
+    n = 240 if ctx.quick() else 3000
+    cases = [gen_case(rng, 8 if ctx.quick() else 10, 8, 3 if ctx.quick() else 4, single=(i % 3 == 0)) for i in range(n)]
+
+    class B:
+        pass
+    b = B()
+    b.cases, b.impl, b.parallel = cases, _seven_big, True
+    results = run_impl(b)
     bad = 0
-    for i in range(n):
-        case = gen_case(rng, 8 if ctx.quick() else 10, 6 if ctx.quick() else 8, 3 if ctx.quick() else 4, single=(i % 4 == 0))
-        v = seven(case, with_exh=len(R.otree_leaves(case["O"])) <= 5)
+    for case, v in zip(cases, results):
         ok, why = relations(case, v)
         if ok and len(v) == 7 and v[6] != v[1]:
             ok, why = False, f"exhaustive minimum {v[6]} differs from the DTL minimum {v[1]}"
@@ -130,7 +142,7 @@ def extra(ctx):
         if not ok:
             bad += 1
             ctx.findings.append(Finding("relations_big", case, v, "(relations of the property)", False, why))
-    ctx.notes.append(f"relations evaluated on {n} larger inputs (up to 8-10 object leaves), {bad} failures")
+    ctx.notes.append(f"relations evaluated on {n} larger inputs (up to 8-10 object leaves, 8 species leaves; every third single-family), {bad} failures")
 
 
 def known_signature(f, kf):
